@@ -407,7 +407,9 @@ class Interp:
             for item in s.items:
                 ce = item.context_expr
                 if isinstance(ce, ast.Call) and (dotted(ce.func) or "").split(".")[-1] == "suppress":
-                    sup += [(dotted(a) or "").split(".")[-1] for a in ce.args]
+                    from sa.cfg import _exc_names
+
+                    sup += [n_.split(".")[-1] for n_ in _exc_names(ce, list(ce.args))]  # (module-level tuples of classes are expanded)
                 else:
                     v = self.eval(ce, env)
                     if item.optional_vars is not None:
@@ -450,7 +452,9 @@ class Interp:
     def _handler_matches(self, h: ast.ExceptHandler, exc: str) -> bool:
         if h.type is None:
             return True
-        names = [dotted(e) for e in h.type.elts] if isinstance(h.type, ast.Tuple) else [dotted(h.type)]
+        from sa.cfg import _exc_names
+
+        names = _exc_names(h, list(h.type.elts) if isinstance(h.type, ast.Tuple) else [h.type])  # (module-level tuples of classes are expanded)
         mro = self.exc_mro(exc)
         return any((n or "").split(".")[-1] in mro for n in names)
 
